@@ -472,6 +472,11 @@ func (h *hand) actionEffects(pre, gs *pf.GameState, op GameOp, actor int) {
 	a := actionNames[op.Code-10]
 	pp, p := pre.Players[actor], gs.Players[actor]
 	cw0, cw1 := pre.Status.CurrentWager, gs.Status.CurrentWager
+	// what was carried out is something the seat had been offered (a raise request may end as an all-in or,
+	// at the level of the wager to match, as a call: each of them only when that action was on offer)
+	if d := p.DidAction; a != "pass" && d != "" && !hasAct(pp, d) {
+		h.viol("C04", "action-carried-out-that-was-not-offered", fmt.Sprintf("seat %d asked for %s, did %q, was offered %v", actor, a, d, pp.AllowedActions))
+	}
 	// nobody else's chips move (before the pots are collected at Next)
 	for i := range gs.Players {
 		if i != actor && chipsOf(pre.Players[i]) != chipsOf(gs.Players[i]) {
